@@ -24,9 +24,68 @@ POLICIES = ["shuffle", "pct", "latency-small", "latency-heavy", "ties", "canonic
 def make(i, tier):
     seed = common.run_seed(i)
     rng = random.Random(seed)
-    cfg = E.swarm_config(rng, POLICIES, ttls=(600, 3600), max_nodes=1)
+    cfg = E.swarm_config(rng, POLICIES, ttls=(600, 3600), max_nodes=2, stores=("file", "file", "redis"),
+                         transports=("asyncio", "asyncio", "blocking"))
+    if cfg["store"] == "file":
+        cfg["nodes"] = 1      # the file-backed configuration is a single-instance one (records live in memory)
     scn, models, skipped = E.gen_multi(rng, FAMILIES, tier, 4, cfg)
     return seed, scn, models, skipped
+
+
+F = "arn:aws:rpcmessage:local::function:"
+
+
+def make_long(i):
+    """Executions that last about as long as, or longer than, execution_ttl (the TTL of the stored record and the
+    default execution time-out): the end must still come exactly once, whatever has expired meanwhile."""
+    seed = common.run_seed(7000000 + i)
+    rng = random.Random(seed)
+    ttl = rng.choice([5, 20, 60])
+    d = rng.choice([ttl - 1, ttl, ttl + 1, 2 * ttl, 3 * ttl + 2])
+    shape = rng.choice(["wait", "task", "parallel", "map", "two-waits"])
+    after = {"Type": "Pass", "Result": "done", "ResultPath": "$.after", "End": True}
+    if shape == "wait":
+        states = {"A": {"Type": "Wait", "Seconds": d, "Next": "Z"}, "Z": after}
+    elif shape == "two-waits":
+        states = {"A": {"Type": "Wait", "Seconds": d // 2 + 1, "Next": "B"}, "B": {"Type": "Wait", "Seconds": d // 2 + 1, "Next": "Z"},
+                  "Z": after}
+    elif shape == "task":
+        states = {"A": {"Type": "Task", "Resource": F + "slow", "ResultPath": "$.r", "Next": "Z"}, "Z": after}
+    elif shape == "parallel":
+        states = {"A": {"Type": "Parallel", "ResultPath": "$.r", "Next": "Z", "Branches": [
+            {"StartAt": "W", "States": {"W": {"Type": "Wait", "Seconds": d, "End": True}}},
+            {"StartAt": "T", "States": {"T": {"Type": "Task", "Resource": F + "quick", "End": True}}}]}, "Z": after}
+    else:
+        states = {"A": {"Type": "Map", "ItemsPath": "$.items", "MaxConcurrency": rng.choice([0, 1]), "ResultPath": "$.r",
+                        "Next": "Z", "ItemProcessor": {"StartAt": "T", "States": {
+                            "T": {"Type": "Task", "Resource": F + "slow", "End": True}}}}, "Z": after}
+    definition = {"StartAt": "A", "States": states}
+    limit = rng.choice([None, None, 4 * ttl + 10, d + 1, d])
+    if limit is not None:
+        definition["TimeoutSeconds"] = limit
+    if rng.random() < 0.3:
+        states["Z"] = {"Type": "Fail", "Error": "E.End", "Cause": "the end"}
+    cfg = E.policy_cfg(rng.choice(["canonical", "shuffle", "latency-small", "ties"]))
+    cfg.update(store=rng.choice(["redis", "redis", "file"]), transport=rng.choice(["asyncio", "blocking"]),
+               execution_ttl=ttl, nodes=1, tz=rng.choice(["UTC0", "SIM-05:30"]))
+    if cfg["store"] == "redis" and rng.random() < 0.4:
+        cfg["nodes"] = 2
+    n = rng.choice([1, 1, 2])
+    scn = {"machines": {"m": {"definition": definition, "type": rng.choice(["STANDARD", "STANDARD", "EXPRESS"])}},
+           "executions": [{"machine": "m", "input": {"items": [1, 2], "k": k}, "name": "e%d" % k, "at": 0.5 * k,
+                           "node": rng.randint(0, 1)} for k in range(n)],
+           "script": {"slow": [{"ok": {"op": "wrap"}, "delay": float(d if shape != "map" else max(1, d // 2))}],
+                      "quick": [{"ok": {"op": "tag"}, "delay": 1.0}]},
+           "functions": ["quick", "slow"], "config": cfg}
+    return seed, scn
+
+
+def run_long(i, extra):
+    seed, scn = make_long(i)
+    r = check(scn, seed)
+    r.setdefault("probes", {})["outlives-ttl:runs"] = 1
+    r["probes"]["outlives-ttl:store=" + scn["config"]["store"]] = 1
+    return r
 
 
 def run_one(i, extra):
@@ -70,15 +129,19 @@ def main(argv):
     rep = common.Report(PROP)
     for r in common.run_batch("checks.c02", "run_one", range(n), {"tier": tier}):
         rep.absorb(r)
+    for r in common.run_batch("checks.c02", "run_long", range(600 if tier == "quick" else 20000), {"tier": tier}):
+        rep.absorb(r)
     return rep.finish(
         rule="1-4 concurrent executions of independently generated machines (families %s) per simulated run, started "
              "through the real StartExecution handler on 1-2 engine instances, under a seeded schedule policy "
              "(%s); per execution the notification sequence must be RUNNING then exactly one terminal, the record "
              "invariants are polled after every scheduler step, and every started execution must be terminal when the "
-             "run is quiescent; executions the reference model places in C06's families (several or handled branch "
+             "run is quiescent; a second slice runs executions that last about as long as or longer than execution_ttl "
+             "(Wait / slow Task / Parallel / Map, machine TimeoutSeconds below, at or above the duration; file and "
+             "Redis stores, where the stored record expires under the running execution); executions the reference model places in C06's families (several or handled branch "
              "failures, nested failures) are regenerated; distinct = distinct (scenario, interleaving) hashes" % (
                  sorted(set(FAMILIES)), ", ".join(POLICIES)),
-        assumptions=["no faults injected (crash/restart is C04)", "legal schedules only: per-queue FIFO, timers never early"])
+        assumptions=["no faults injected (crash/restart is C04)", "file store with one instance, Redis store with 1-2 instances, both transports", "legal schedules only: per-queue FIFO, timers never early"])
 
 
 def replay(path):
